@@ -9,6 +9,7 @@ import (
 	"os/exec"
 	"path/filepath"
 	"sort"
+	"strings"
 	"testing"
 	"time"
 
@@ -94,9 +95,10 @@ func TestC10Stress(t *testing.T) {
 				continue
 			}
 			raceClasses[rep.class] = true
-			if _, listed := open[rep.class]; listed {
-				// Listed and excluded by construction, yet reported: the exclusion is incomplete.
-				rec.Note("race class %s is a listed open finding but was reported inside the workload", rep.class)
+			if f, listed := open[rep.class]; listed {
+				// A listed open finding is not a violation; the workload is built to stay clear of it, so say that it did not.
+				rec.Note("race class %s is a listed open finding (%s) and was reported inside the workload although the workload is built to avoid it", rep.class, f.ID)
+				continue
 			}
 			hh := *h
 			hh.RaceReport = rep.text
@@ -197,8 +199,8 @@ func TestC10Stress(t *testing.T) {
 		}
 	}
 	if judged > 0 {
-		rec.Note("stress: %d histories judged (%d of them on per-subtree projections after the whole-history check exceeded %v), %d inconclusive; worst linearizability check %v (%d model operations), mean %v; schedules are the real scheduler's and are not reproducible, replay files hold the recorded history",
-			judged, partitioned, *c10Exact, inconclusive, worst.Round(time.Microsecond), worstOps, (total / time.Duration(judged)).Round(time.Microsecond))
+		rec.Note("stress: %d histories judged (%d of them on per-subtree projections after the whole-history check exceeded %v), %d needed the exact two-step GetLeafValue model, %d inconclusive; worst linearizability check %v (%d model operations), mean %v; schedules are the real scheduler's and are not reproducible, replay files hold the recorded history",
+			judged, partitioned, *c10Exact, twoStep, inconclusive, worst.Round(time.Microsecond), worstOps, (total / time.Duration(judged)).Round(time.Microsecond))
 	}
 	if len(raceClasses) > 0 {
 		var cs []string
@@ -330,10 +332,17 @@ func probeD6InChild() (bool, error) {
 		return false, err
 	}
 	defer os.RemoveAll(dir)
-	cmd := exec.Command(os.Args[0], "-test.run", "^TestC10ProbeChild$", "-test.count", "1")
+	self, err := os.Executable()
+	if err != nil {
+		return false, err
+	}
+	cmd := exec.Command(self, "-test.run", "^TestC10ProbeChild$", "-test.count", "1")
 	cmd.Env = append(os.Environ(), "C10_PROBE_CHILD=1", "GORACE=log_path="+filepath.Join(dir, "race")+" halt_on_error=0")
 	cmd.Dir = dir
-	cmd.Run() // exits non-zero when a race is reported
+	out, _ := cmd.CombinedOutput() // exits non-zero when a race is reported
+	if !strings.Contains(string(out), "TestC10ProbeChild") && !strings.Contains(string(out), "PASS") && !strings.Contains(string(out), "FAIL") {
+		return false, fmt.Errorf("child process did not run: %s", excerpt(string(out), 300))
+	}
 	files, _ := filepath.Glob(filepath.Join(dir, "race.*"))
 	for _, f := range files {
 		b, _ := os.ReadFile(f)
